@@ -91,6 +91,7 @@ TABLE = [
     (r"^<T as core::convert::Into<U>>::into$", INTO, "blanket Into: forwards to U::from"),
     (r"^<T as core::convert::From<T>>::from$", NEUTRAL, "identity conversion"),
     # --- higher order (Option/Result combinators used or plausible) ---------------------------
+    (r"^<bool>::(then|then_some)$", HO, "`cond.then(f)`: calls f zero or one time; Some iff cond"),
     (r"^<core::(result::Result<T, E>|option::Option<T>)>::(map|map_err|map_or|map_or_else|and_then|or_else|unwrap_or_else|ok_or_else|is_some_and|is_ok_and|is_err_and|inspect|inspect_err|filter|then|then_some|get_or_insert_with)$", HO, "calls its callable zero or one time"),
     # --- neutral, cannot unwind -------------------------------------------------------------
     (r"^<(\*mut T|core::ptr::non_null::NonNull<T>) as unsize::CoerciblePtr<U>>::\w+$", NEUTRAL, "unsize crate: re-tags a raw pointer with new metadata, no user code involved"),
